@@ -2411,6 +2411,15 @@ theorem pairBlocks_get (d : AssemDesign) (r : List (String × Rat × String × N
     simp [hk, hc]
   · cases h
 
+/-- **a modifier list of the wrong length is refused**, by block or by component, whatever the other lists are -/
+theorem unequal_modifier_list_refused (nBlocks : Nat) (lens : List Nat) (n : Nat) (hn : n ∈ lens) (hne : n ≠ nBlocks) :
+    listsConsistent nBlocks lens = false := by
+  unfold listsConsistent
+  rw [Bool.eq_false_iff]
+  intro h
+  have := List.all_eq_true.mp h n hn
+  exact hne (by simpa using this)
+
 theorem mem_positions (grid : List (Cell × String)) (ids : List String) (c : Cell) :
     c ∈ positions grid ids ↔ ∃ s, (c, s) ∈ grid ∧ s ∈ ids := by
   unfold positions
